@@ -71,3 +71,15 @@ impl Sha256 {
     #[verifier::external_body]
     pub fn finalize32(self) -> (r: [u8; 32]) ensures r@ == sha256(self.input@) { unimplemented!() }
 }
+
+/// HashMap<String, V> (read side: the footer's files_info)
+#[verifier::external_body]
+#[verifier::reject_recursive_types(V)]
+pub struct VStrMap<V> { m: std::collections::HashMap<String, V> }
+impl<V> VStrMap<V> {
+    pub uninterp spec fn view(&self) -> Map<Seq<char>, V>;
+    #[verifier::external_body]
+    pub fn get<'a>(&'a self, k: &str) -> (r: Option<&'a V>)
+        ensures r is Some <==> self@.contains_key(k@), r is Some ==> *r->Some_0 == self@[k@],
+    { unimplemented!() }
+}
